@@ -38,6 +38,10 @@ struct Workload {
   int espeed = -1, dspeed = -1;
   int qb[5] = {0, 0, 0, 0, 0};  // by attribute type POSITION..GENERIC
   int pred[5] = {-1, -1, -1, -1, -1};
+  // Explicit quantization (origin/range given by the caller): number of origin
+  // dimensions per attribute type, 0 = automatic range. May be smaller or
+  // larger than the attribute's component count.
+  int xq[5] = {0, 0, 0, 0, 0};
   int split = -1;
   int builtin = -1;
   int compress_conn = -1;
